@@ -51,7 +51,7 @@ impl NetflowParser {
 //@           assert(pviews(results@) + spec_pb(state_of(*self), al, rem).0 =~= pviews(res0) + (seq![pview(pk)] + spec_pb(state_of(*self), al, rem).0));
 //@       }
 //@   }
-//@   after "remaining: current.to_vec(), }));": proof {
+//@   before "break; } } } results": proof {
 //@       let ev = results@.last();
 //@       assert(pviews(results@) =~= pviews(res0) + seq![pview(ev)]);
 //@       let r1 = pp_spec(stk, al, current@).0;
